@@ -245,6 +245,29 @@ def run(tier, seed):
         _, files8 = observe(sdir, n, ref)
         if all(f == k for k, f in enumerate(files8)):
             raise common.MachineryError("vacuous: a different --seed produced identical features (dither not applied?)")
+        # --seed values are equally fixed: 0 included.  Two runs (with different global RNG states) and a
+        # killed-and-resumed run must agree with each other
+        for sd in (0, 1):
+            outs = []
+            for rep in range(2):
+                np.random.seed(1000 + 17 * rep + sd)
+                d = os.path.join(root, "seed%d_rep%d" % (sd, rep))
+                run_tool(root, d, 0, seed=sd, manifest=False)
+                outs.append({k: load_tensor(os.path.join(d, "u%d.pt" % k)) for k in range(1, n + 1)})
+            run.evaluations += 1
+            import torch as _t
+            if any(outs[0][k] is None or outs[1][k] is None or not _t.equal(outs[0][k], outs[1][k]) for k in outs[0]):
+                run.violation({"kind": "fixed_seed_two_runs_differ", "seed": sd})
+            else:
+                np.random.seed(5 + sd)
+                d = os.path.join(root, "seed%d_resume" % sd)
+                run_tool(root, d, 0, seed=sd, crash="after_manifest_print:1:hard")
+                np.random.seed(77 + sd)
+                run_tool(root, d, 2, seed=sd)
+                _, fl = observe(d, n, outs[0])
+                if fl != list(range(n)):
+                    run.violation({"kind": "resumed_directory_differs_from_uninterrupted_run", "seed": sd, "files": fl,
+                                   "schedule": ["after_manifest_print:1:hard"], "workers": "0 then 2"})
         kinds = [("before_save", "hard"), ("before_save", "mid"), ("before_save", "soft"), ("after_save", "hard"), ("after_save", "soft"),
                  ("after_manifest_print", "hard"), ("after_manifest_print", "soft")]
         schedules = []
